@@ -62,7 +62,11 @@ let prefill t n =
 let elt t = match dec_type t with
   | TInt32 | TUInt32 | TInt64 | TUInt64 | TDouble | TString as x -> x
   | _ -> failwith ("bad element type " ^ t)
-let parse toks = match toks with
+(* wcells_n:<route> / wcells_i:<route>: the route is how the harness builds the std::vector<Cell>; the request is the same *)
+let strip_route toks = match toks with
+  | c :: r when OStr.length c > 8 && (OStr.sub c 0 9 = "wcells_n:" || OStr.sub c 0 9 = "wcells_i:") -> OStr.sub c 0 8 :: r
+  | _ -> toks
+let parse toks = match strip_route toks with
   | "new" :: r ->
     FNew (OLst.map (fun (n, u, t) -> { c_name = sstr n; c_unit = sstr u; c_type = dec_type t }) (triples (counted_scaled 3 r)))
   | ["rows"; n] -> FRows (zs n)
